@@ -694,6 +694,32 @@ def rule_t_free(ctx):
     return R
 
 
+def carry_if_split_fns(ctx):
+    """methods of S that, on every path to a normal return, either find LEFT = None or run the bounded mover (helpers wrapping the carry)"""
+    def build():
+        out = set(bounded_movers(ctx))
+        changed = True
+        while changed:
+            changed = False
+            for b in typestate(ctx).bodies:
+                if b.path in out:
+                    continue
+                edges = left_test_edges(ctx, b)
+                ok_edges = {e for e, v in edges.items() if v == N}
+                ok_bbs = set()
+                for c2 in ctx.calls(b):
+                    lc = c2.local_callee()
+                    if lc is not None and lc.path in out and is_self_s(ctx, b, c2.arg_path(0)):
+                        ok_bbs.add(c2.loc.bb)
+                if not ok_bbs:
+                    continue
+                if _must_pass(b, [0], ok_bbs, ok_edges) is None:
+                    out.add(b.path)
+                    changed = True
+        return out
+    return ctx.memo("carry_if_split", build)
+
+
 def rule_m_carry(ctx):
     R = RuleResult("M-carry", "every insertion of a user element into the main table is followed, on every path to a normal return, by the bounded "
                    "mover when an old table is pending; nothing else inserts user elements into MAIN")
@@ -714,12 +740,13 @@ def rule_m_carry(ctx):
         if self_s_prefix(ctx, body) is None or sp is None or not is_self_s(ctx, body, sp):
             R.viol("%s:%s:foreign" % (body.path, c.tname), c.where(), "user insertion into MAIN from a body that is not a method of the split table")
             continue
+        carriers = carry_if_split_fns(ctx)
         edges = left_test_edges(ctx, body)
         ok_edges = {e for e, v in edges.items() if v == N}
         ok_bbs = set()
         for c2 in ctx.calls(body):
             lc = c2.local_callee()
-            if lc is not None and (lc.path in bounded) and is_self_s(ctx, body, c2.arg_path(0)):
+            if lc is not None and (lc.path in carriers) and is_self_s(ctx, body, c2.arg_path(0)):
                 ok_bbs.add(c2.loc.bb)
         w = _must_pass(body, [c.target], ok_bbs, ok_edges)
         R.inst(fn=body.path, site=c.where(), op=c.tname, verdict="carry follows" if w is None else "VIOLATION")
